@@ -56,6 +56,7 @@ TABLES = {
     "GenSharedState": ["scan_shared.py", REPO],
     "GenChain": ["gen_chain.py", REPO],
     "GenCliDoc": ["gen_clidoc.py", REPO],
+    "GenPanicSites": ["gen_panics.py", REPO],
 }
 
 
@@ -320,33 +321,61 @@ def run_impl(exe, lines, workdir, timeout=900, sequential=False):
     return res
 
 
-def run_model(exe, lines, workdir, timeout=900):
-    res = [None] * len(lines)
-    shards = _shards(lines, NPROC)
-    procs = []
-    for k, shard in enumerate(shards):
-        wd = os.path.join(workdir, "impl%d" % k)   # same @W@ substitution as the implementation side
-        data = "".join(strip_meta(l).replace("@W@", wd + "/w") + "\n" for _, l in shard).encode()
-        p = subprocess.Popen([exe, REPO], stdin=subprocess.PIPE, stdout=subprocess.PIPE, stderr=subprocess.PIPE)
-        procs.append((shard, p, data))
-    import threading
-    outs = {}
-    def feed(idx, p, data):
+def _big_stack():
+    import resource
+    try:
+        resource.setrlimit(resource.RLIMIT_STACK, (resource.RLIM_INFINITY, resource.RLIM_INFINITY))
+    except (ValueError, OSError):
         try:
-            outs[idx] = p.communicate(data, timeout=timeout)
-        except subprocess.TimeoutExpired:
-            p.kill(); outs[idx] = (b"", b"timeout")
-    th = [threading.Thread(target=feed, args=(i, p, d)) for i, (_, p, d) in enumerate(procs)]
-    [t.start() for t in th]; [t.join() for t in th]
-    for idx, (shard, p, _) in enumerate(procs):
-        o, e = outs[idx]
-        outl = o.decode().split("\n")
-        if outl and outl[-1] == "":
-            outl.pop()
-        if len(outl) != len(shard):
-            raise Infra("model runner produced %d lines for %d cases: %s" % (len(outl), len(shard), e.decode()[-300:]))
-        for (i, _), ol in zip(shard, outl):
-            res[i] = ol
+            soft, hard = resource.getrlimit(resource.RLIMIT_STACK)
+            resource.setrlimit(resource.RLIMIT_STACK, (hard, hard))
+        except (ValueError, OSError):
+            pass
+
+
+def run_model(exe, lines, workdir, timeout=900):
+    """run case lines through the extracted model (stack limit lifted: the extracted list functions are not tail recursive);
+    a runner that dies marks the case it was on MODELCRASH and the rest of the shard is resumed"""
+    import threading
+    res = [None] * len(lines)
+    state = [{"k": k, "todo": shard} for k, shard in enumerate(_shards(lines, NPROC))]
+    rounds = 0
+    while any(s["todo"] for s in state):
+        rounds += 1
+        if rounds > 50:
+            raise Infra("model runner keeps dying")
+        procs = []
+        for s in state:
+            if not s["todo"]:
+                continue
+            wd = os.path.join(workdir, "impl%d" % s["k"])   # same @W@ substitution as the implementation side
+            data = "".join(strip_meta(l).replace("@W@", wd + "/w") + "\n" for _, l in s["todo"]).encode()
+            p = subprocess.Popen([exe, REPO], stdin=subprocess.PIPE, stdout=subprocess.PIPE, stderr=subprocess.PIPE, preexec_fn=_big_stack)
+            procs.append((s, p, data))
+        outs = {}
+        def feed(idx, p, data):
+            try:
+                outs[idx] = p.communicate(data, timeout=timeout)
+            except subprocess.TimeoutExpired:
+                p.kill(); outs[idx] = (b"", b"timeout")
+        th = [threading.Thread(target=feed, args=(i, p, d)) for i, (_, p, d) in enumerate(procs)]
+        [t.start() for t in th]; [t.join() for t in th]
+        for idx, (s, p, _) in enumerate(procs):
+            o, e = outs[idx]
+            outl = o.decode().split("\n")
+            if outl and outl[-1] == "":
+                outl.pop()
+            n = len(outl)
+            if n > len(s["todo"]):
+                raise Infra("model runner produced %d lines for %d cases: %s" % (n, len(s["todo"]), e.decode()[-300:]))
+            for (i, _), ol in zip(s["todo"], outl):
+                res[i] = ol
+            if n < len(s["todo"]):
+                i, _ = s["todo"][n]
+                res[i] = "MODELCRASH " + e.decode()[-120:].replace("\n", " ")
+                s["todo"] = s["todo"][n + 1:]
+            else:
+                s["todo"] = []
     return res
 
 
